@@ -68,6 +68,15 @@ pub open spec fn is_redirect(s: StatusCode) -> bool {
 pub assume_specification<T: PartialEq> [<[T]>::contains] (s: &[T], x: &T) -> (r: bool)
     ensures r == s@.contains(*x);
 pub enum HeaderName { Location, Other(u8) }
+impl HeaderName {
+    /// the header's name as http-types prints it
+    pub uninterp spec fn text(&self) -> Seq<char>;
+    // ASSUMED (Display for HeaderName)
+    #[verifier::external_body]
+    pub fn to_string(&self) -> (r: String)
+        ensures r@ == self.text(),
+    { unimplemented!() }
+}
 pub mod headers { pub use super::HeaderName; pub const LOCATION: HeaderName = HeaderName::Location; }
 #[verifier::external_body]
 pub struct HeaderValues { _p: u8 }
@@ -75,6 +84,13 @@ pub struct HeaderValues { _p: u8 }
 pub struct HeaderValue { _p: u8 }
 pub uninterp spec fn last_value_str(v: HeaderValues) -> Seq<char>;
 impl HeaderValues {
+    /// the values of the header, in order
+    pub uninterp spec fn vals(&self) -> Seq<HeaderValue>;
+    // ASSUMED (http-types): iterates the values in order
+    #[verifier::external_body]
+    pub fn iter(&self) -> (r: ValuesIter<'_>)
+        ensures r.vals() == self.vals(),
+    { unimplemented!() }
     // ASSUMED (http-types): the last value of the header
     #[verifier::external_body]
     pub fn last(&self) -> (r: &HeaderValue)
@@ -85,6 +101,11 @@ impl HeaderValue {
     pub uninterp spec fn text(&self) -> Seq<char>;
     #[verifier::external_body]
     pub fn as_str(&self) -> (r: &str)
+        ensures r@ == self.text(),
+    { unimplemented!() }
+    // ASSUMED (Display for HeaderValue)
+    #[verifier::external_body]
+    pub fn to_string(&self) -> (r: String)
         ensures r@ == self.text(),
     { unimplemented!() }
 }
@@ -204,8 +225,15 @@ impl Request {
     /// what reading the body to its end yields
     pub uninterp spec fn body_content(&self) -> core::result::Result<Seq<u8>, HttpTypesError>;
     pub uninterp spec fn method_s(&self) -> Method;
+    /// the header map's entries in ITS iteration order (a hash map: any order, fixed per value)
+    pub uninterp spec fn entries(&self) -> Seq<(HeaderName, HeaderValues)>;
     /// (name, value) for every value of every header, in the header map's iteration order
-    pub uninterp spec fn header_pairs(&self) -> Seq<(Seq<char>, Seq<char>)>;
+    pub open spec fn header_pairs(&self) -> Seq<(Seq<char>, Seq<char>)> { flat_pairs(self.entries()) }
+    // ASSUMED (http-types Request::iter): visits every entry of the header map once
+    #[verifier::external_body]
+    pub fn iter(&self) -> (r: HeadersIter<'_>)
+        ensures r.entries() == self.entries(),
+    { unimplemented!() }
     // ASSUMED (http_types::Request::is_empty -> Body::is_empty: `self.length.map(|l| l == 0)`)
     #[verifier::external_body]
     pub fn is_empty(&self) -> (r: Option<bool>)
@@ -216,18 +244,11 @@ impl Request {
     pub fn take_body(&mut self) -> (r: Body)
         ensures
             r.content() == old(self).body_content(),
-            final(self).url_s() == old(self).url_s(), final(self).method_s() == old(self).method_s(), final(self).header_pairs() == old(self).header_pairs(),
+            final(self).url_s() == old(self).url_s(), final(self).method_s() == old(self).method_s(), final(self).entries() == old(self).entries(),
     { unimplemented!() }
     #[verifier::external_body]
     pub fn method(&self) -> (r: Method)
         ensures r == self.method_s(),
-    { unimplemented!() }
-    // X13: `self.iter().flat_map(|(name, values)| values.iter().map(|value| HttpHeader { name: name.to_string(),
-    // value: value.to_string() })).collect()` - ASSUMED to build one HttpHeader per (name, value) pair
-    // in the header map's iteration order (the rule is keyed to exactly that text)
-    #[verifier::external_body]
-    pub fn protocol_headers(&self) -> (r: Vec<HttpHeader>)
-        ensures crate::header_pairs(r@) == self.header_pairs(),
     { unimplemented!() }
     // ASSUMED (crux_http::Request::url -> http_types::Request::url)
     #[verifier::external_body]
@@ -248,6 +269,61 @@ impl Clone for Request {
     #[verifier::external_body]
     fn clone(&self) -> (r: Self)
         ensures r.url_s() == self.url_s(), r.head() == self.head(), r.body() == empty_body(),
+    { unimplemented!() }
+}
+
+/// one (name, value) pair per value of one header
+pub open spec fn pairs_with(nm: Seq<char>, vals: Seq<HeaderValue>) -> Seq<(Seq<char>, Seq<char>)> {
+    vals.map(|_i: int, v: HeaderValue| (nm, v.text()))
+}
+pub open spec fn pairs_of(n: HeaderName, vs: HeaderValues) -> Seq<(Seq<char>, Seq<char>)> { pairs_with(n.text(), vs.vals()) }
+/// all pairs of all entries, entry by entry
+pub open spec fn flat_pairs(e: Seq<(HeaderName, HeaderValues)>) -> Seq<(Seq<char>, Seq<char>)>
+    decreases e.len(),
+{
+    if e.len() == 0 { Seq::empty() } else { flat_pairs(e.drop_last()) + pairs_of(e.last().0, e.last().1) }
+}
+/// `values.iter()`
+#[verifier::external_body]
+pub struct ValuesIter<'a> { _p: core::marker::PhantomData<&'a u8> }
+/// `values.iter().map(g)`: an iterator of protocol headers
+#[verifier::external_body]
+pub struct MappedValues { _p: u8 }
+/// `self.iter()` over the header map
+#[verifier::external_body]
+pub struct HeadersIter<'a> { _p: core::marker::PhantomData<&'a u8> }
+/// `self.iter().flat_map(f)`
+#[verifier::external_body]
+pub struct FlatMapped { _p: u8 }
+impl MappedValues { pub uninterp spec fn produced(&self) -> Seq<HttpHeader>; }
+impl FlatMapped {
+    pub uninterp spec fn produced(&self) -> Seq<HttpHeader>;
+    // ASSUMED (Iterator::collect::<Vec<_>>): everything the iterator produces, in order
+    #[verifier::external_body]
+    pub fn collect(self) -> (r: Vec<HttpHeader>)
+        ensures r@ == self.produced(),
+    { unimplemented!() }
+}
+impl<'a> ValuesIter<'a> {
+    pub uninterp spec fn vals(&self) -> Seq<HeaderValue>;
+    // ASSUMED (Iterator::map, parametric in g): if g turns every value v into a header (nm, text of v),
+    // the mapped iterator produces exactly one such header per value, in order
+    #[verifier::external_body]
+    pub fn map<G: Fn(&'a HeaderValue) -> HttpHeader>(self, g: G) -> (r: MappedValues)
+        requires forall|v: &HeaderValue| call_requires(g, (v,)),
+        ensures forall|nm: Seq<char>| (forall|v: &HeaderValue, h: HttpHeader| call_ensures(g, (v,), h) ==> h.name@ == nm && h.value@ == v.text())
+            ==> header_pairs(r.produced()) == #[trigger] pairs_with(nm, self.vals()),
+    { unimplemented!() }
+}
+impl<'a> HeadersIter<'a> {
+    pub uninterp spec fn entries(&self) -> Seq<(HeaderName, HeaderValues)>;
+    // ASSUMED (Iterator::flat_map, parametric in f): if f turns every entry into an iterator that produces
+    // exactly that entry's (name, value) pairs, the flattened iterator produces all pairs, entry by entry
+    #[verifier::external_body]
+    pub fn flat_map<F: Fn((&'a HeaderName, &'a HeaderValues)) -> MappedValues>(self, f: F) -> (r: FlatMapped)
+        requires forall|n: &HeaderName, vs: &HeaderValues| call_requires(f, ((n, vs),)),
+        ensures (forall|n: &HeaderName, vs: &HeaderValues, it: MappedValues| call_ensures(f, ((n, vs),), it) ==> header_pairs(it.produced()) == pairs_of(*n, *vs))
+            ==> header_pairs(r.produced()) == flat_pairs(self.entries()),
     { unimplemented!() }
 }
 
@@ -657,7 +733,9 @@ pub open spec fn header_pairs(h: Seq<HttpHeader>) -> Seq<(Seq<char>, Seq<char>)>
         r is Ok ==> header_pairs(r->Ok_0.headers@) == req.header_pairs(), // [C14/into_protocol_request/every-value-of-every-header-and-nothing-else]
 //@rule X19.mut-self * s/\bself\b/this/
 //@rule X17.await * s/\s*\.await\b//
-//@rule X13.header-chain 1 s/this\s*\.iter\(\)\s*\.flat_map\(\|\((\w+), (\w+)\)\| \{\s*\2\.iter\(\)\.map\(\|(\w+)\| HttpHeader \{\s*name: \1\.to_string\(\),\s*value: \3\.to_string\(\),\s*\}\)\s*\}\)\s*\.collect\(\)/this.protocol_headers()/
+//@bind HNAME \.flat_map\(\|\((\w+), \w+\)\|
+//@rule X1.closure-contract 1 closure#\.iter\(\)\s*\.map\(#|$x: &HeaderValue| -> (h: HttpHeader) ensures h.name@ == $HNAME.text() && h.value@ == $x.text() // [C14/into_protocol_request/each-protocol-header-is-the-name-and-one-value-as-given]\n#
+//@rule X1.closure-contract 1 closure#\.flat_map\(#|$x: (&HeaderName, &HeaderValues)| -> (it: MappedValues) ensures header_pairs(it.produced()) == pairs_of(*$x.0, *$x.1) // [C14/into_protocol_request/every-value-of-a-multi-valued-header]\n#
 //@entry
     broadcast use empty_body_reads_empty;
     let mut this = req;
